@@ -140,11 +140,15 @@ func ReadPBFWithOptions(r io.Reader, emit EmitWithGoroutine, options ReadOptions
 	go func() {
 		readBlobErr = readBlobs(r, c, ctx)
 		for i := 0; i < cores; i++ {
-			c <- &blob{Type: blobTypeDone}
+			select {
+			case c <- &blob{Type: blobTypeDone}:
+			case <-ctx.Done():
+			}
 		}
 		wg.Done()
 	}()
 	var readOSMDataErr error
+	var lock sync.Mutex
 	for i := 0; i < cores; i++ {
 		go func(goroutine int) {
 			defer wg.Done()
@@ -158,8 +162,11 @@ func ReadPBFWithOptions(r io.Reader, emit EmitWithGoroutine, options ReadOptions
 				case b := <-c:
 					if b.Type == blobTypeOSMData {
 						if err := readOSMDataBlob(b, f, options); err != nil {
+							lock.Lock()
 							readOSMDataErr = err
+							lock.Unlock()
 							cancel()
+							return
 						}
 					} else if b.Type == blobTypeDone {
 						return
